@@ -4,7 +4,7 @@ import json, os
 V = os.path.dirname(os.path.dirname(os.path.abspath(__file__)))
 props = [json.loads(l) for l in open(os.path.join(V, "properties.jsonl"))]
 CLAIMED = {
- "C01": dict(text="Theorems (coq/Props/C01.v): at real arithmetic the propensity model reached through create_propensity's dispatch equals the documented closed forms for EVERY reactant list (any order), every non-negative state, every V>0, in all four modes (mass action incl. clamped falling factorial and its zero/factorial characterisation; four Hill kinds); interface theorems (plain loop; safe zeroing; scan within bounds) for any arithmetic. Hand model tied by running the extracted model at doubles against Propensity objects and plain/safe interfaces (guarded probes), plus an independent closed-form oracle. TRANSLATOR TIE: the four evaluators of the eight propensity classes are REGENERATED from bioscrape/types.pyx + types.pxd on every run (tools/tr_propensity.py -> coq/Gen/PropensityGen.v, virtual calls resolved through the inheritance chain) and proved equal to the hand model's prop_eval for ANY arithmetic (C01_source_tie); C01_source_massaction / C01_source_hill restate the closed forms for the regenerated definitions; an edit of an evaluator breaks the tie lemma.",
+ "C01": dict(text="Theorems (coq/Props/C01.v): at real arithmetic the propensity model reached through create_propensity's dispatch equals the documented closed forms for EVERY reactant list (any order), every non-negative state, every V>0, in all four modes (mass action incl. clamped falling factorial and its zero/factorial characterisation; four Hill kinds); interface theorems (plain loop; safe zeroing; scan within bounds) for any arithmetic. Hand model tied by running the extracted model at doubles against Propensity objects and plain/safe interfaces (guarded probes), plus an independent closed-form oracle. TRANSLATOR TIE: the four evaluators of the eight propensity classes are REGENERATED from bioscrape/types.pyx + types.pxd on every run (tools/tr_propensity.py -> coq/Gen/PropensityGen.v, virtual calls resolved through the inheritance chain) and proved equal to the hand model's prop_eval for ANY arithmetic (C01_source_tie); C01_source_massaction / C01_source_hill restate the closed forms for the regenerated definitions; an edit of an evaluator breaks the tie lemma.  The plain interface's four per-reaction loops are regenerated as well (tools/tr_iface.py -> coq/Gen/IfaceGen.v, the virtual call on the r-th propensity object as an oracle) and proved equal to the model's compute_plain (C01_source_interface_plain).",
              note="evaluators: translator + proved tie; dispatch / initialize / interfaces: hand model (Propensity.v, Interface.v), correspondence only; reals axioms; Cython ** vs libm pow tolerance 1e-12; rounding outside the theorems",
              tech="source-to-Gallina translator with proved tie to the hand model + Rocq proof over R (list induction, multiplicity-table invariant) + extracted-model correspondence", sec="4/C01"),
  "C03": dict(text="Theorems (coq/Props/C03.v): every entry of S and Sd built by the model of create_reaction/_create_stochiometric_matrices equals count(products) - count(reactants) for any reaction list, any declaration order (row located through the index map); the reported derivative is the sum over reactions of (S+Sd) x rate (over R); initialisation fails iff some parameter has no value. Tied by correspondence on random reaction lists / declaration orders (exact integers, bit-exact derivative) and a count-based oracle.",
